@@ -4,13 +4,14 @@
    history of received lines, registrations and unregistrations, s over every client state. *)
 From Coq Require Import List Arith ZArith NArith Bool Lia.
 Import ListNotations.
-Require Import FV.Gen.C12 FV.C12.Model FV.C12.Lemmas FV.C12.ConcModel FV.C12.ConcLemmas.
+Require Import FV.Gen.C12 FV.C12.Model FV.C12.Lemmas FV.C12.ConcModel FV.C12.ConcLemmas FV.C12.ReModel FV.C12.ReLemmas.
 
 (* obligations on the facts regenerated from /repo (Gen/C12.v) *)
 Theorem C12_source_facts :
   update_messages_ok = true /\ timestamp_clamped_before_update = true /\ shorthand_lookup_shape = true /\
   reply_update_precedes_release = true /\ reply_error_not_stored_again = true /\
-  update_value_order = true /\ callback_iterates_copy = true /\ internalize_shape = true /\
+  update_value_order = true /\ callback_iterates_copy = true /\ register_appends_in_place = true /\
+  dispatch_removes_from_fetched_list = true /\ internalize_shape = true /\
   error_default_is_InternalError = true /\ array_validate_pads_previous = true /\ predefined_names <> [] /\ error_classes <> [] /\ error_names <> [].
 Proof. repeat split; try reflexivity; discriminate. Qed.
 
@@ -153,6 +154,91 @@ Proof.
   - apply done_is_arrival_order.
 Qed.
 
+(* 9. Callbacks that call back into the client (ReModel.v): W n is what the n-th invocation does -- any list of
+      register_callback / unregister_callback calls on the same or on other keys and callback names, then return /
+      UnregisterCallback / another exception.  For EVERY such W, every level (cn, lv) of every message (pk, e) and every
+      client state s (hence for every dispatch of every history rrun W s0 ops):
+      (a) the dispatch invokes exactly the callbacks that stand in the list of (cn, lv) when the dispatch of that level
+          starts, each once, in list order, with the meaning of the message -- whatever the invoked callbacks register or
+          unregister meanwhile (a callback registered during the dispatch is not dispatched for this message: it got its
+          immediate call with the cached state, theorem 6; one unregistered during the dispatch is still called);
+      (b) callbacks never touch the cache;
+      (c) unless a callback that was unregistered meanwhile raised UnregisterCallback (rbad: ValueError in the
+          implementation, outside the model), for every callback c0: occurrences of c0 in the list afterwards + number of
+          times c0 raised UnregisterCallback in this dispatch <= occurrences before + number of times register_callback
+          appended c0 to this list meanwhile.  So every UnregisterCallback costs the callback one registration: a one-shot
+          callback registered once and not registered again is gone from the list, and by (a) no later dispatch invokes it,
+          even when it registered its successor on the same list from inside itself.
+      The source facts register_appends_in_place / dispatch_removes_from_fetched_list / callback_iterates_copy tie the
+      single list per (callback name, key) of the model to the code: register appends to the stored list object, the
+      dispatch removes from the object it fetched, which is the stored one. *)
+Theorem C12_callbacks_once_with_reentrant_registration : forall W cn lv pk e s,
+  exists new, rlog (rcallback W cn lv pk e s) = new ++ rlog s /\
+    rev (disp_of new) = map (fun c => (c, cn, lv, pk, e)) (rcbs s cn lv) /\
+    rcache (rcallback W cn lv pk e s) = rcache s /\
+    (rbad (rcallback W cn lv pk e s) = false ->
+     forall c0, cnt c0 (rcbs (rcallback W cn lv pk e s) cn lv) + raised c0 new <=
+                cnt c0 (rcbs s cn lv) + added c0 cn lv new).
+Proof. intros; apply callback_reentrant. Qed.
+
+(* the one-shot clause spelled out: (1) a callback that raised UnregisterCallback in a dispatch as often as it stood in
+   the list, and was not appended again meanwhile, is not in the list afterwards -- also when it (or another callback)
+   registered other callbacks on the same list from inside the dispatch; (2) a callback that is not in the list of a
+   level is not dispatched by that level, whatever the dispatched callbacks register meanwhile.  Together: never
+   invoked again (until somebody registers it again). *)
+Theorem C12_oneshot_gone_after_unregister : forall W cn lv pk e s c0,
+  rbad (rcallback W cn lv pk e s) = false ->
+  exists new, rlog (rcallback W cn lv pk e s) = new ++ rlog s /\
+    (cnt c0 (rcbs s cn lv) <= raised c0 new -> added c0 cn lv new = 0 ->
+     ~ In c0 (rcbs (rcallback W cn lv pk e s) cn lv)).
+Proof. intros; apply oneshot_gone; auto. Qed.
+Theorem C12_not_registered_not_dispatched : forall W cn lv pk e s c0,
+  ~ In c0 (rcbs s cn lv) ->
+  exists new, rlog (rcallback W cn lv pk e s) = new ++ rlog s /\
+    forall cn' lv' k' e', ~ In (c0, cn', lv', k', e') (disp_of new).
+Proof. intros; apply not_registered_not_dispatched; auto. Qed.
+
+(* a message is the cache write followed by the six dispatches in the fixed order, each starting in the state the
+   previous one left (rlevel1 / rlevel2 are those states); invocations of a history are never reordered or dropped *)
+Theorem C12_reentrant_message_levels : forall W pk e s,
+  rupdate_value W pk e s =
+    (let s0 := rwrite pk e s in
+     let s3 := rcallback W CItem (KPar (fst pk) (snd pk)) pk e (rlevel2 W CItem pk e s0) in
+     rcallback W CEvent (KPar (fst pk) (snd pk)) pk e
+       (rcallback W CEvent (KMod (fst pk)) pk e (rcallback W CEvent KNode pk e s3))) /\
+  cache_get pk (rcache (rupdate_value W pk e s)) = Some e.
+Proof.
+  intros. split; [reflexivity|].
+  unfold rupdate_value, rlevels, rlevel2, rlevel1.
+  repeat match goal with
+  | |- context [rcache (rcallback ?W ?cn ?lv ?pk ?e ?s)] =>
+      let H := fresh in destruct (callback_reentrant W cn lv pk e s) as [? [_ [_ [H _]]]]; rewrite H; clear H
+  end.
+  simpl. apply cache_get_set_same.
+Qed.
+Theorem C12_reentrant_invocations_in_arrival_order : forall W ops1 ops2 s, exists new,
+  rlog (rrun W s (ops1 ++ ops2)) = new ++ rlog (rrun W s ops1).
+Proof. intros. unfold rrun. rewrite fold_left_app. apply (rrun_log W ops2). Qed.
+
+(* non-vacuity: the one-shot callback 1 registers its successor 2 on its own list and raises UnregisterCallback; a
+   failing callback 3 stands behind it.  Callback 1 is invoked for the first message only, 2 gets the first message
+   as immediate call and the later ones by dispatch, once each. *)
+Definition re_demo_key : key := ([109%N], s_value).
+Definition re_demo_e (n : nat) : entry := (Some n, TFin 100%Z, None).
+Example C12_reentrant_demo :
+  let W := fun n => match n with
+                    | 0 => {| r_acts := [AcReg KNode CEvent 2]; r_fin := BUnreg |}
+                    | 2 => {| r_acts := []; r_fin := BExc |}
+                    | _ => {| r_acts := []; r_fin := BOk |} end in
+  let s := rrun W (rst0 [0]) [RReg KNode CEvent 1; RReg KNode CEvent 3; RMsg re_demo_key (re_demo_e 1);
+                               RMsg re_demo_key (re_demo_e 2)] in
+  rbad s = false /\ rcbs s CEvent KNode = [3; 2] /\
+  filter (fun i => negb (is_ghost i)) (rev (rlog s)) =
+    [RDisp 1 CEvent KNode re_demo_key (re_demo_e 1) BUnreg; RImm 2 CEvent KNode re_demo_key (re_demo_e 1) BOk;
+     RDisp 3 CEvent KNode re_demo_key (re_demo_e 1) BExc; RErr 0 BOk;
+     RDisp 3 CEvent KNode re_demo_key (re_demo_e 2) BOk; RDisp 2 CEvent KNode re_demo_key (re_demo_e 2) BOk].
+Proof. vm_compute. repeat split; reflexivity. Qed.
+
 (* non-vacuity of the concurrent theorems: a write and a read of the same parameter, answered in the opposite order,
    an update in between; the writer runs only after the answer to the reader was processed *)
 Definition cdemo_key : key := ([109%N], s_target).
@@ -229,3 +315,8 @@ Print Assumptions C12_e2e_array_exact.
 Print Assumptions C12_reply_cached_before_release.
 Print Assumptions C12_released_call_sees_its_reply.
 Print Assumptions C12_conc_is_sequential.
+Print Assumptions C12_callbacks_once_with_reentrant_registration.
+Print Assumptions C12_oneshot_gone_after_unregister.
+Print Assumptions C12_not_registered_not_dispatched.
+Print Assumptions C12_reentrant_message_levels.
+Print Assumptions C12_reentrant_invocations_in_arrival_order.
